@@ -468,7 +468,7 @@ func c11CommitOpt(env *corekit.Env, repo, diamondID string, mode model.ConflictM
 		g.FailOnceOp, g.FailOnceAt = "put", 1
 		stores = corekit.WithStores(env.Wal, env.ReadLog, env.Blob, crashstore.Wrap(g, "meta", env.Meta), crashstore.Wrap(g, "vmeta", env.VMeta))
 	} else if retry {
-		g.FailReadOp, g.FailReadKey, g.FailReadAt = "get", "/splits/", 1
+		g.FailReadOp, g.FailReadKey, g.FailReadAt = "get", "/bundle-files-", 1
 		stores = corekit.WithStores(env.Wal, env.ReadLog, env.Blob, crashstore.Wrap(g, "meta", env.Meta), crashstore.Wrap(g, "vmeta", env.VMeta))
 	}
 	d := core.NewDiamond(repo, stores,
